@@ -201,6 +201,7 @@ def run(ctx):
             ok = ft <= lab | {"is", "has"} and (lab - set(toks(en[0]["n"]))) <= {"is", "has"}
             ctx.ob("R05.3", "%s|%s|label" % (f.name, en[0]["n"].split("::")[-1]), ok, f.loc(n), "prints %r under %s" % (lits[0], en[0]["n"]))
     ctx.floor("R05.3", "text-dump flag labels", n_lab, 30)
+    _derivations(ctx)
 
 
 def _contains(tree, node):
@@ -210,3 +211,75 @@ def _contains(tree, node):
         if x is node:
             return True
     return False
+
+
+def _derivations(ctx):
+    """R05.4: how define_struct_type records a base class: only accessible bases, the base's own index,
+    upcast = cast *to the base from the derived class*, downcast the other way round, each flag next to the
+    function it announces, no downcast through a virtual base; and wrapper parameters keep their names."""
+    from . import gates as G
+    from .common import enclosing_loops, loop_container
+    db = ctx.db
+    ctx.rule("R05.4", "a base is recorded only if its access is <= V_public, with upcast = get_cast_function(base, derived) and downcast = get_cast_function(derived, base), flags paired with the functions they announce; wrapper parameters carry the name and has-name bit of the same parameter")
+    fd = db.fn("InterrogateBuilder::define_struct_type")
+    p_cpp = [p for p in fd.params if "CPPStructType" in p["t"]]
+    if not p_cpp:
+        ctx.broken("define_struct_type: CPPStructType parameter not found")
+    derived = p_cpp[0]["d"]
+    casts = [c for c in fd.walk() if c.get("k") == "call" and callee_short(c) == "get_cast_function" and len(c.get("a", [])) == 3]
+    ctx.floor("R05.4", "cast functions synthesised in define_struct_type", len(casts), 2)
+    for c in casts:
+        kind = None
+        for x in walk(c["a"][2]):
+            if x.get("k") == "str":
+                kind = x["v"]
+        to_, from_ = local_ref(c["a"][0]), local_ref(c["a"][1])
+        par = next(fd.ancestors(c), None)
+        t = assigned_target(par) if par is not None else None
+        tgt = (field_of(t[0]) or "").split("::")[-1] if t else None
+        if kind == "upcast":
+            ok = from_ is not None and from_.get("d") == derived and to_ is not None and to_.get("d") != derived and tgt == "_upcast"
+            ctx.ob("R05.4", "define_struct_type|upcast-roles", ok, fd.loc(c), "upcast = get_cast_function(to=%s, from=%s) stored in %s" % (show(c["a"][0]), show(c["a"][1]), tgt))
+        elif kind == "downcast":
+            ok = to_ is not None and to_.get("d") == derived and from_ is not None and from_.get("d") != derived and tgt == "_downcast"
+            ctx.ob("R05.4", "define_struct_type|downcast-roles", ok, fd.loc(c), "downcast = get_cast_function(to=%s, from=%s) stored in %s" % (show(c["a"][0]), show(c["a"][1]), tgt))
+            # never through a virtual base
+            virt_false = G.edges_where(fd, lambda atom, truth: (field_of(atom) or "").endswith("_is_virtual") and not truth)
+            ctx.ob("R05.4", "define_struct_type|no-downcast-through-virtual-base", G.gated(fd, c, virt_false), fd.loc(c), "the downcast is synthesised only when the base is not virtual")
+        # the flag set in the same block announces the same direction
+        blk = fd.cfg.locate(c)[0]
+        flags = set()
+        for e in fd.cfg.blocks[blk].elems:
+            n = fd.nodes.get(e)
+            if n is not None and n.get("k") == "bin" and n.get("op") == "|=":
+                flags |= {x["n"].split("::")[-1] for x in walk(n["y"]) if x.get("k") == "ref" and x.get("dk") == "enumc"}
+        ctx.ob("R05.4", "define_struct_type|%s-flag" % kind, ("DF_" + str(kind)) in flags, fd.loc(c), "%s is announced by %s" % (kind, sorted(flags)))
+    # recording a base is behind `_vis <= V_public`
+    pushes = [c for c in fd.walk() if c.get("k") == "call" and callee_short(c) == "push_back" and (field_of(c.get("this")) or "").endswith("_derivations")]
+    pub = G.edges_where(fd, G.vis_le("V_public"))
+    for i, pcall in enumerate(pushes):
+        ctx.ob("R05.4", "define_struct_type|derivation#%d|accessible-only" % i, G.gated(fd, pcall, pub), fd.loc(pcall), "a base is recorded only behind `base._vis <= V_public`")
+    ctx.floor("R05.4", "derivation recording sites", len(pushes), 2)
+    # d._base is the index of the resolved base type of the same loop element
+    bases = [n for n in fd.walk() if assigned_target(n) and (field_of(assigned_target(n)[0]) or "").endswith("Derivation::_base")]
+    ok = bool(bases) and all(local_ref(assigned_target(n)[1]) is not None for n in bases)
+    ctx.ob("R05.4", "define_struct_type|base-index", ok, fd.loc(bases[0]) if bases else fd.loc(), "d._base is the index returned by get_type() for that base")
+    # parameter names
+    fe = db.fn("FunctionRemap::make_wrapper_entry")
+    nm = [n for n in fe.walk() if assigned_target(n) and (field_of(assigned_target(n)[0]) or "").endswith("Parameter::_name")]
+    ok = False
+    if len(nm) == 1:
+        r = assigned_target(nm[0])[1]
+        ok = (field_of(r) or "").endswith("FunctionRemap::Parameter::_name")
+        # same loop element as the type
+        lp = next(enclosing_loops(fe, nm[0]), None)
+        ok = ok and lp is not None and (field_of(loop_container(fe, lp)) or "").endswith("_parameters")
+        # ... read through the loop's own cursor, not some other element of the container
+        if ok:
+            hdr = [lp.get(k) for k in ("c", "inc", "var") if isinstance(lp.get(k), dict)]
+            cursor = {x.get("d") for h in hdr for x in walk(h) if x.get("k") == "ref" and x.get("dk") == "local"}
+            if lp.get("k") == "forrange":
+                cursor = {lp.get("vd")}
+            used = {x.get("d") for x in walk(r) if x.get("k") == "ref"}
+            ok = bool(cursor & used) and not any(x.get("k") == "call" and callee_short(x) in ("front", "back", "at", "operator[]") for x in walk(r))
+    ctx.ob("R05.4", "make_wrapper_entry|parameter-name", ok, fe.loc(nm[0]) if nm else fe.loc(), "each recorded parameter takes its name from the same element of _parameters")
